@@ -1,6 +1,7 @@
 package main
 
 import (
+	"os"
 	"fmt"
 	"go/types"
 	"strings"
@@ -183,19 +184,48 @@ func (ex *Executor) observed(name string) bool {
 	return false
 }
 
+// effectful: the callee is a repo function whose own contract is an event table (it calls, sends or spawns in an
+// observable way). Calling it is itself an effect, so the call is an event of the caller even when the caller's
+// contract does not list it under observe: an added call cannot hide behind the callee's contract.
+var autoObserve = os.Getenv("SXV_NO_AUTO_OBSERVE") == ""
+
+func (ex *Executor) effectful(cc *ssa.CallCommon) bool {
+	if !autoObserve || cc.IsInvoke() {
+		return false
+	}
+	sc := cc.StaticCallee()
+	if sc == nil {
+		return false
+	}
+	spec := ex.S.Funcs[funcKey(sc)]
+	if spec == nil || spec.Inline || spec.IsExt {
+		return false
+	}
+	if len(spec.EntryRows) > 0 || len(spec.ExitRows) > 0 {
+		return true
+	}
+	for _, l := range spec.Loops {
+		if len(l.Rows) > 0 {
+			return true
+		}
+	}
+	return false
+}
+
 func (ex *Executor) dispatchCall(st *State, fr *Frame, cc *ssa.CallCommon, fv Val, args []Val, rv *ssa.Call, ins ssa.Instruction, deferred bool) bool {
 	var resVal ssa.Value
 	if rv != nil {
 		resVal = rv
 	}
 	name := ex.staticCalleeName(cc)
+	observedHere := ex.observed(name) || ex.effectful(cc)
 	ord := ex.callOrdinal(fr.fn, ins, name)
 	if !deferred {
 		ex.runAnchors(st, fr, "call", name, ord, "before")
 	}
 	var preSnaps map[int][]Val
 	var preHeap map[string]*Term
-	if ex.observed(name) && fr.depth <= ex.observeDepth() {
+	if observedHere && fr.depth <= ex.observeDepth() {
 		sargs := args
 		if cc.IsInvoke() && len(args) == len(cc.Args) {
 			sargs = append([]Val{fv}, args...)
@@ -204,7 +234,7 @@ func (ex *Executor) dispatchCall(st *State, fr *Frame, cc *ssa.CallCommon, fv Va
 		preHeap = copyHeap(st.heap)
 	}
 	finish := func(res []Val) bool {
-		if ex.observed(name) && fr.depth <= ex.observeDepth() {
+		if observedHere && fr.depth <= ex.observeDepth() {
 			eargs := args
 			if cc.IsInvoke() && len(args) == len(cc.Args) {
 				// interface method: the receiver is the first event argument
@@ -254,7 +284,7 @@ func (ex *Executor) dispatchCall(st *State, fr *Frame, cc *ssa.CallCommon, fv Va
 				return finish(res)
 			}
 			// no contract: havoc results
-			if !ex.observed(name) {
+			if !observedHere {
 				ex.Assumed["interface method "+key+" without contract: results havocked, tracked heap unchanged"] = true
 			}
 			return finish(ex.havocResults(st, cc.Signature(), "inv."+cc.Method.Name()))
@@ -277,7 +307,7 @@ func (ex *Executor) dispatchCall(st *State, fr *Frame, cc *ssa.CallCommon, fv Va
 			}
 			return finish(res)
 		}
-		if !ex.observed(name) {
+		if !observedHere {
 			ex.Assumed["call of unknown function value in "+fr.fn.String()+": results havocked, memory behind its pointer arguments (one level) havocked, rest of the tracked heap unchanged"] = true
 		}
 		ex.havocPointees(st, args)
@@ -371,7 +401,7 @@ func (ex *Executor) dispatchCall(st *State, fr *Frame, cc *ssa.CallCommon, fv Va
 		nf.oldHeap = copyHeap(st.heap)
 		nf.oldAlloc = st.alloc
 		nf.blk = fn.Blocks[0]
-		if ex.observed(name) {
+		if observedHere {
 			// observed repo function that is inlined: record the call itself (results are not bound)
 			st.events = append(st.events, &Event{Kind: "call", Fn: name, Args: args, Pos: ex.pos(ins)})
 		}
@@ -380,7 +410,7 @@ func (ex *Executor) dispatchCall(st *State, fr *Frame, cc *ssa.CallCommon, fv Va
 	}
 	// external function without contract
 	if spec == nil {
-		if !ex.observed(name) {
+		if !observedHere {
 			ex.Assumed["external "+dname+" without contract: results havocked, memory reachable from pointer arguments (one level) havocked, rest of the tracked heap unchanged"] = true
 		}
 		ex.havocPointees(st, args)
